@@ -266,15 +266,28 @@ def silence_keyboard():
     machine_mod.print = lambda *a, **k: None
 
 
+_NUMERIC_MODULES = ('bardolph.controller.units', 'bardolph.controller.color_matrix', 'bardolph.lib.param_helper',
+                    'bardolph.lib.color', 'bardolph.vm.machine', 'bardolph.controller.lifx_lan_light',
+                    'bardolph.controller.light_set', 'bardolph.controller.lifx_lan_api', 'bardolph.vm.vm_math')
+
+
 def install_real_mode():
-    """units.py calls the builtin float(); in real-mode analysis that is the
-    identity on numbers.  Rebinding the module-level name keeps /repo untouched."""
-    units_mod.float = symx.sym_float
+    """The numeric modules call the builtins float() and int(); in real-mode analysis they are the
+    identity / truncation on proxies.  Rebinding the module-level names keeps /repo untouched."""
+    import importlib
+    for name in _NUMERIC_MODULES:
+        m = importlib.import_module(name)
+        m.float = symx.sym_float
+        m.int = symx.sym_int
 
 
 def uninstall_real_mode():
-    if 'float' in units_mod.__dict__:
-        del units_mod.float
+    import importlib
+    for name in _NUMERIC_MODULES:
+        m = importlib.import_module(name)
+        for b in ('float', 'int'):
+            if b in m.__dict__:
+                delattr(m, b)
 
 
 def configure(specs=DEFAULT_SPECS, clock='rec', output='rec', extra_settings=None,
